@@ -341,6 +341,21 @@ func run(c *fw.Ctx) error {
 		}
 		behs = []beh{b}
 	} else {
+		// pinned witness of the known finding (its construct is excluded from the random grammar)
+		wres, err := c.TLC(fw.TLCOpts{Dir: "spec/core", Module: "Session", Cfg: "wit.cfg", Workers: 1, Timeout: 3 * time.Minute,
+			Files: map[string][]byte{"wit.cfg": []byte("SPECIFICATION SpecSessWit\nCONSTANTS Profile = \"session\" Pinned = TRUE FamN = 1 FamFaults = {}\nINVARIANTS StatusOK CutIndependence SameEnd EmitSess\n")},
+			OnBeh: func(r json.RawMessage) {
+				var b beh
+				if json.Unmarshal(r, &b) == nil {
+					behs = append(behs, b)
+				}
+			}})
+		if err != nil {
+			return err
+		}
+		if wres.Violated != "" {
+			return fmt.Errorf("model-level property violated on the witness: %s", wres.Violated)
+		}
 		cfg := "SPECIFICATION SpecSess\nCONSTANTS Profile = \"session\" Pinned = FALSE FamN = 1 FamFaults = {}\nINVARIANTS StatusOK CutIndependence SameEnd EmitSess\n"
 		var mu sync.Mutex
 		var wg sync.WaitGroup
@@ -453,6 +468,10 @@ func run(c *fw.Ctx) error {
 			if strings.HasPrefix(b.Entry, "whole") {
 				form = "whole"
 			}
+			trig := "session " + form + " entry " + b.Entry
+			if b.Prog.Name != "" {
+				trig = "witness:" + b.Prog.Name
+			}
 			switch {
 			case o.Chunk != 0:
 				mode := o.What
@@ -462,11 +481,11 @@ func run(c *fw.Ctx) error {
 				if i := strings.Index(mode, " after chunk:"); i >= 0 {
 					mode = mode[:i]
 				}
-				c.Fail("session "+form+" entry "+b.Entry, stripPos(mode), rep)
+				c.Fail(trig, stripPos(mode), rep)
 			case o.Stdout != b.ExpectedStdout():
-				c.Fail("session "+form+" entry "+b.Entry, "final output differs", rep)
+				c.Fail(trig, "final output differs", rep)
 			case !reflect.DeepEqual(o.Globals, want):
-				c.Fail("session "+form+" entry "+b.Entry, "final globals differ", rep)
+				c.Fail(trig, "final globals differ", rep)
 			}
 		}
 	}
